@@ -44,7 +44,9 @@ LiveErrs(st) == Cardinality({ s \in DOMAIN st.slot : IsErr(st.slot[s]) }) + Card
 FiniteDouble == {"neg", "zero", "pos"}
 Sentinel(kind) == CASE kind = "double" -> "zero" [] kind = "ptr" -> "null" [] kind = "int" -> "zero" [] kind = "complex" -> "zero" [] kind = "status" -> "fail-zeroed"
 SuccessOK(fn, kind, ret) ==
-  LET k == KindOf(fn) IN
+  \* a function the table does not classify (added after the table was written) is held to what the statement demands of every function
+  LET k == IF fn \in Classified THEN KindOf(fn)
+           ELSE CASE kind = "double" -> "S" [] kind = "ptr" -> "O" [] kind = "complex" -> "C" [] kind \in {"int", "status"} -> "I" [] OTHER -> "S" IN
   \* the statement demands: finite, and a strictly positive quantity never 0 without an error (it does not speak about signs)
   CASE kind = "double" -> (k = "P" /\ ret \in {"pos", "neg"}) \/ (k \in {"N", "S"} /\ ret \in FiniteDouble)
     [] kind = "ptr" -> k = "O" /\ ret = "ptr"
@@ -54,8 +56,7 @@ SuccessOK(fn, kind, ret) ==
     [] kind = "obj" -> ret = "finite"
     [] kind = "plain" -> ret \in {"neg", "zero", "pos", "finite"}
 ClassWhy(ev) ==
-  IF ev.fn \notin Classified THEN "function is not in the XrlAPI table"
-  ELSE IF ev.over # 0 THEN "an error was stored over an existing one"
+  IF ev.over # 0 THEN "an error was stored over an existing one"
   ELSE IF ev.same # 1 THEN "the call without an error slot returned something else"
   ELSE IF "rep" \in DOMAIN ev /\ ev.rep # 1 THEN "the same call repeated immediately gave a different outcome (value, error, code or message)"
   ELSE IF ev.slot = "empty" \/ ev.slot = "none" THEN
